@@ -14,4 +14,38 @@ CHECKS = {
         "note": STD_NOTE,
         "technique": "Coq proof over executable model + extraction-based differential correspondence",
     },
+    "C02": {
+        "text": "Coq theorems C02_*_decode for the 17 ParseAt types and the file-header tail: for every buffer, offset, class and spec the monadic "
+                "parser transcribed from the source equals the record built from the frozen gABI layout table (field F = positional value of ABI "
+                "field F; unsigned into N, signed two's complement into Z) and consumes exactly the ABI size; C02_short (never a value on short "
+                "input), C02_roundtrip_* (decode of the ABI encoding gives the value back), C02_packed (r_info/st_info/st_other/version index as "
+                "the ABI macros' div/mod). Tie: ~3k (quick) encodings of boundary/distinct-byte field values checked against an independent python encoder.",
+        "note": STD_NOTE + " Frozen reference layouts in coq/Ref/RefLayout.v were written from the gABI/<elf.h>.",
+        "technique": "Coq proof over executable model + extraction-based differential correspondence",
+    },
+    "C09": {
+        "text": "Coq theorem C09_coherent, generic in any regular entry parser (succeeds iff size bytes remain, then advances by size): len = "
+                "bytes/size, is_empty <-> len = 0, get(i) Ok <-> i < len for every i (incl. overflow), iteration yields exactly len items with "
+                "j-th = get(j), None forever after the first None; C09_entry_types shows the 9 entry types are regular. Tie + metamorphic oracle: "
+                "the laws are evaluated on the implementation's own outputs for every ragged length 0..4*entsize-1.",
+        "note": STD_NOTE,
+        "technique": "Coq proof (induction over entries) + correspondence + metamorphic laws on implementation outputs",
+    },
+    "C10": {
+        "text": "Coq theorems C10_ident (decision table of parse_ident with error kinds and payloads), C10_accepts, C10_gate (open succeeds only "
+                "if EI_DATA is accepted), C10_ident_error_surfaces, C10_any_open / C10_any_queries / C10_any_common (the any-endian handle equals "
+                "the fixed-spec handle up to the spec tag and every query returns the identical result). Tie: all 256 values of EI_DATA/EI_CLASS/"
+                "EI_VERSION and magic corruptions x 4 specs on ident and open, error kind+payload compared; any-vs-fixed full-content equivalence "
+                "on generated files. Stream-side gating is covered with C07.",
+        "note": STD_NOTE + " NativeEndian is LittleEndian on the build target.",
+        "technique": "Coq proof (case analysis, conversion) + exhaustive ident-byte correspondence",
+    },
+    "C15": {
+        "text": "Coq theorems C15_get_raw (Ok exactly when off is inside the table and a NUL follows inside it; result = the longest NUL-free "
+                "run at off; otherwise Err), C15_get (same bytes iff well-formed UTF-8), C15_utf8_valid_iff (the from_utf8 environment model "
+                "accepts exactly Unicode Table 3-7). Tie: exhaustive tables <= 5/7 bytes over {NUL, ASCII, lead, continuation} x every offset, "
+                "random 4 KiB tables incl. offset usize::MAX; from_utf8 validated against the real function on structured byte strings.",
+        "note": STD_NOTE + " core::str::from_utf8 is an environment model (validated each run against the real function and python's strict decoder).",
+        "technique": "Coq proof + exhaustive small-domain correspondence",
+    },
 }
